@@ -2,7 +2,9 @@
 import json, jsonschema, glob, sys
 jsonschema.validate(json.load(open('/verif/MANIFEST.json')), json.load(open('/root/.vp/MANIFEST.schema.json')))
 s = json.load(open('/root/.vp/EVIDENCE.schema.json'))
+acc=set(open('/verif/accepted.txt').read().split())
 for f in sorted(glob.glob('/verif/evidence/*.json')):
+    if f.split('/')[-1][:-5] not in acc: continue
     try:
         jsonschema.validate(json.load(open(f)), s)
     except Exception as e:
